@@ -229,9 +229,9 @@ def gen_long_src_case(rng):
 
 def gen(rng, tier):
     r_ = rng.random()
-    if r_ < (0.008 if tier == "quick" else 0.015):
+    if r_ < 0.02:
         return gen_long_src_case(rng)
-    if rng.random() < (0.012 if tier == "quick" else 0.02):
+    if r_ < 0.04:
         return gen_spill_case(rng)
     if rng.random() < 0.2:
         return gen_gtf_case(rng, tier)
